@@ -57,6 +57,30 @@ func (c pathComp) matches(s string) bool {
 	return err == nil && n == c.index
 }
 
+// findDerived looks the location derived from comps up below <ps>/outs
+// (array indices match with any zero padding).
+func findDerived(ps string, comps []pathComp) (string, bool) {
+	cur := filepath.Join(ps, "outs")
+	for _, c := range comps {
+		ents, err := os.ReadDir(cur)
+		if err != nil {
+			return cur, false
+		}
+		found := ""
+		for _, e := range ents {
+			if c.matches(e.Name()) {
+				found = e.Name()
+				break
+			}
+		}
+		if found == "" {
+			return filepath.Join(cur, c.String()), false
+		}
+		cur = filepath.Join(cur, found)
+	}
+	return cur, true
+}
+
 func (c pathComp) String() string {
 	if c.isIdx {
 		return fmt.Sprintf("<%d>%s", c.index, c.ext)
@@ -181,6 +205,12 @@ func compareOuts(pre, post *progen.Val, t *progen.T, p *progen.Program, where st
 		if d.Mode == 3 {
 			want = orig + ".real"
 		}
+		if d.Mode == 6 {
+			// the producer named the file relative to the working directory
+			if abs, err := filepath.Abs(orig); err == nil {
+				want = abs
+			}
+		}
 		if !ok {
 			add("%s does not hold the content its producer wrote", strings.TrimPrefix(np, ps))
 		} else if d.Mode == 5 {
@@ -190,6 +220,23 @@ func compareOuts(pre, post *progen.Val, t *progen.T, p *progen.Program, where st
 			}
 		} else if ep != want {
 			add("%s holds the content of %s, expected that of %s", strings.TrimPrefix(np, ps), ep, want)
+		}
+	}
+	if d.Mode >= 3 {
+		// links and files outside the pipestance: whatever the record says,
+		// the file must be available at the derived location under outs/
+		if loc, ok := findDerived(ps, comps); !ok {
+			add("nothing at the derived location %s under outs/", strings.TrimPrefix(loc, ps))
+		} else if t.K != progen.TPath {
+			if _, err := os.Stat(loc); err != nil {
+				add("the derived location %s under outs/ cannot be read: %v", strings.TrimPrefix(loc, ps), err)
+			} else if ep, ok := embeddedPath(loc); !ok {
+				add("%s does not hold the content its producer wrote", strings.TrimPrefix(loc, ps))
+			} else if _, wrote := writtenFiles[ep]; !wrote {
+				add("%s holds the content of %s, which the producing stage did not write", strings.TrimPrefix(loc, ps), ep)
+			}
+		} else if ents, err := os.ReadDir(loc); err != nil || len(ents) == 0 {
+			add("the directory at the derived location %s under outs/ is empty or cannot be read", strings.TrimPrefix(loc, ps))
 		}
 	}
 	if d.Mode == 0 {
